@@ -723,6 +723,18 @@ func (h *SexpHash) FillHashFromShadow(env *Zlisp, src interface{}) error {
 func fillHashHelper(r interface{}, depth int, env *Zlisp, preferSym bool) (Sexp, error) {
 	//Q("fillHashHelper() at depth %d, decoded type is %T\n", depth, r)
 
+	// a nil interface, or a nil pointer / slice / map, is nil in the script too
+	if r == nil {
+		return SexpNull, nil
+	}
+	rv := reflect.ValueOf(r)
+	switch rv.Kind() {
+	case reflect.Ptr, reflect.Map, reflect.Slice, reflect.Interface:
+		if rv.IsNil() {
+			return SexpNull, nil
+		}
+	}
+
 	// check for one of our registered structs
 
 	// go through the type registry upfront
